@@ -9,7 +9,11 @@
 //!                    "cd_area":..,"c0":..,"c1":..,"c2":..},..]},
 //!  "consist":{"kind":"default"} | {"kind":"mixed","locos":["conv"|"bel",..],"pdct":"RESGreedy"|"Proportional"},
 //!  "t0":s, "ramp":s (optional brake build-up time, default 0 as TrainSimBuilder sets it),
-//!  "sched":"whole"|"bylink"|"timed"|"esttimes", "look":m (bylink: extend when the end of authority is nearer)}
+//!  "sched":"whole"|"bylink"|"timed"|"esttimes"|"stopgo"|"timedwait",
+//!  "look":m (bylink: extend when the end of authority is nearer), "tp":[[link,time_s]..] (timedwait)}
+//!   stopgo    = extend_path + the library's walk() after each link (the train rests at every end of authority)
+//!   timedwait = the library's walk_timed_path() on a hand-made timed path that makes the train wait at ends of
+//!               authority before (short) links are released
 //! Case descriptor (kind "table", emitted by BrakingCurve.tla): {"kind":"table","zones":[[o,v]..],"end":E}
 //!  — unit-mass train with a 2 N brake on flat, resistance-free track: `BrakingPoints::recalc` then
 //!  computes in exact small integers and can be compared with the model's table point by point.
@@ -23,6 +27,7 @@
 //!  Build  {ok,msg,cls}                                                         cls = "internal" | "descriptive"
 //!  Table  {ok,msg,cls,toy, sp:[[o,vceil]..], end, pts:[[o,lfloor,lceil,tfloor]..]}   after every extend_path
 //!  Steps  {s:[[i,t,o,vfloor,vlfloor,vlceil,vtfloor]..]}                       chunks of consecutive steps
+//!  Stage  {}                                                                   a new leg starts (stop-and-go)
 //!  stepcap{steps}
 //!  Final  {ok,msg,steps,end,o,v}                                              end of the harness-driven run
 //!  Walk   {api,ok,msg,i,o,v,end,same}                                         the library's own walk on a clone
@@ -410,6 +415,12 @@ impl<'a> Run<'a> {
             }
         }
     }
+    /// a new leg of a stop-and-go run starts from `sim`'s state: the step monitors restart there
+    fn stage(&mut self, sim: &SpeedLimitTrainSim) {
+        self.steps.flush(self.tr);
+        self.tr.emit(json!({"ev":"Stage"}));
+        self.steps.push(self.tr, sim);
+    }
     fn extend(&mut self, sim: &mut SpeedLimitTrainSim, net: &Network, links: &[LinkIdx]) -> Option<Stop> {
         self.steps.flush(self.tr);
         match sim.extend_path(net.as_ref(), links) {
@@ -555,25 +566,34 @@ fn exec_run(desc: &Value, tr: &mut Tracer) -> anyhow::Result<()> {
             };
             run.finish(&sim, stop);
         }
-        "timed" => {
-            let Some(etn) = est else {
-                return Ok(());
-            };
-            let tp = match run_dispatch(&net, &[sim0.clone()], vec![etn], false, false) {
-                Ok(mut v) if v.len() == 1 => {
-                    let tp = v.pop().unwrap();
-                    run.tr.emit(json!({"ev":"Dispatch","ok":true,"msg":"","cls":"descriptive","n":tp.len(),
-                        "tp": tp.iter().map(|x| json!([x.link_idx.idx(), qi(x.time.value, TS)])).collect::<Vec<_>>() }));
-                    tp
-                }
-                Ok(v) => {
-                    run.tr.emit(json!({"ev":"Dispatch","ok":false,"msg":format!("{} plans for one train", v.len()),"cls":"descriptive","n":0,"tp":[]}));
+        "timed" | "timedwait" => {
+            let tp: Vec<LinkIdxTime> = if sched == "timedwait" {
+                // a hand-made timed path: [[link, time_s], ..]; like the dispatcher's, its last entry is never
+                // added to the path (walk_timed_path extends with entries idx_prev..idx_next, exclusive)
+                ga(desc, "tp")
+                    .iter()
+                    .map(|x| LinkIdxTime::new(LinkIdx::new(x[0].as_u64().unwrap() as u32), uc::S * x[1].as_f64().unwrap()))
+                    .collect()
+            } else {
+                let Some(etn) = est else {
                     return Ok(());
-                }
-                Err(e) => {
-                    let (m, c) = errpair(&e);
-                    run.tr.emit(json!({"ev":"Dispatch","ok":false,"msg":m,"cls":c,"n":0,"tp":[]}));
-                    return Ok(());
+                };
+                match run_dispatch(&net, &[sim0.clone()], vec![etn], false, false) {
+                    Ok(mut v) if v.len() == 1 => {
+                        let tp = v.pop().unwrap();
+                        run.tr.emit(json!({"ev":"Dispatch","ok":true,"msg":"","cls":"descriptive","n":tp.len(),
+                            "tp": tp.iter().map(|x| json!([x.link_idx.idx(), qi(x.time.value, TS)])).collect::<Vec<_>>() }));
+                        tp
+                    }
+                    Ok(v) => {
+                        run.tr.emit(json!({"ev":"Dispatch","ok":false,"msg":format!("{} plans for one train", v.len()),"cls":"descriptive","n":0,"tp":[]}));
+                        return Ok(());
+                    }
+                    Err(e) => {
+                        let (m, c) = errpair(&e);
+                        run.tr.emit(json!({"ev":"Dispatch","ok":false,"msg":m,"cls":c,"n":0,"tp":[]}));
+                        return Ok(());
+                    }
                 }
             };
             if tp.is_empty() {
@@ -611,6 +631,47 @@ fn exec_run(desc: &Value, tr: &mut Tracer) -> anyhow::Result<()> {
                 let mut w = sim0.clone();
                 let r = w.walk_timed_path(&net, &tp);
                 run.tr.emit(walk_event("walk_timed_path", &w, &r, Some(&sim)));
+            }
+        }
+        "stopgo" => {
+            // stop and go: extend_path + the LIBRARY's walk() after each link. Every leg is first driven by the
+            // harness' own capped loop on a clone (logged step by step; shows that the leg terminates), then the
+            // library call runs on the real object, whose state is what the next leg starts from.
+            let mut lib = sim;
+            let mut next = 0usize;
+            while next < n {
+                let mut upto = next + 1;
+                if next == 0 {
+                    let mut acc = 0.0;
+                    upto = 0;
+                    while upto < n && acc <= tl + 1.0 {
+                        acc += gf(&ga(desc, "links")[upto], "len") / os;
+                        upto += 1;
+                    }
+                }
+                let mut probe = lib.clone();
+                if let Some(s) = run.extend(&mut probe, &net, &route[next..upto]) {
+                    run.finish(&probe, s);
+                    return Ok(());
+                }
+                run.stage(&probe);
+                let stop = loop {
+                    if !must_go_on(&probe) {
+                        break Stop::Done;
+                    }
+                    if let Some(s) = run.step(&mut probe) {
+                        break s;
+                    }
+                };
+                if !run.finish(&probe, stop) {
+                    return Ok(());
+                }
+                let r = lib.extend_path(net.as_ref(), &route[next..upto]).and_then(|_| lib.walk());
+                run.tr.emit(walk_event("walk", &lib, &r, Some(&probe)));
+                if r.is_err() {
+                    return Ok(());
+                }
+                next = upto;
             }
         }
         other => anyhow::bail!("unknown schedule {other}"),
@@ -719,12 +780,17 @@ fn gen_base(r: &mut Rng, tier: &str, want: &str) -> Value {
     };
     // links
     let sched = match r.range(0, 99) {
-        0..=34 => "whole",
-        35..=64 => "bylink",
-        65..=89 => "timed",
-        _ => "esttimes",
+        0..=27 => "whole",
+        28..=47 => "bylink",
+        48..=67 => "timed",
+        68..=75 => "esttimes",
+        76..=88 => "stopgo",
+        _ => "timedwait",
     };
-    let nl = r.range(2, if thorough { 8 } else { 6 });
+    // a path only a few hundred metres longer than the train: the front starts between 1000 ft and 1000 m
+    // before the end of the path
+    let short_path = sched == "whole" && r.chance(1, 5);
+    let nl = if short_path { r.range(1, 2) } else { r.range(2, if thorough { 8 } else { 6 }) };
     let mut lens: Vec<i64> = (0..nl).map(|_| if r.chance(1, 4) { r.range(6, 20) * 50 } else { r.range(10, 120) * 50 }).collect();
     // the origin link usually holds the whole train (make_est_times and walk_timed_path start with it alone)
     if (lens[0] as f64) < tlen + 50.0 && r.chance(17, 20) {
@@ -737,6 +803,27 @@ fn gen_base(r: &mut Rng, tier: &str, want: &str) -> Value {
         lens[k] = (lens[k] + 1000).min(6000);
         if lens.iter().all(|l| *l >= 6000) {
             break;
+        }
+    }
+    if short_path {
+        // total = train length + 350 .. 950 m
+        let total = (((tlen + 350.0) / 50.0).ceil() as i64 + r.range(0, 12)) * 50;
+        if nl == 1 {
+            lens[0] = total;
+        } else {
+            lens[1] = r.range(6, 12) * 50;
+            lens[0] = (total - lens[1]).max(300);
+        }
+    }
+    if (sched == "stopgo" || sched == "timedwait") && r.chance(4, 5) {
+        // short last link(s): after the previous leg the train rests within 1000 ft of the old end of authority
+        // and 300 .. 1200 m before the new one
+        let k = r.range(1, 2.min(nl - 1));
+        for j in (nl - k)..nl {
+            lens[j as usize] = r.range(6, 18) * 50;
+        }
+        while (lens.iter().sum::<i64>() as f64) < tlen + 1000.0 {
+            lens[0] += 500;
         }
     }
     let look = *r.pick(&[400i64, 1000, 2000, 3000, 5000]);
@@ -763,8 +850,31 @@ fn gen_base(r: &mut Rng, tier: &str, want: &str) -> Value {
         }
         links.push(json!({"len":len,"head":head,"params":[],"rs":[],"elevs":elevs}));
     }
+    // timedwait: entry j (link j+1) is released once the clock has reached the time of entry j-1; a "late" time
+    // (the whole route so far at 2 m/s) makes the train wait at the end of its authority, an unchanged time
+    // releases the next link at once. The last entry is a sentinel (never added to the path).
+    let mut tp: Vec<Value> = vec![];
+    if sched == "timedwait" {
+        let mut t = t0 as f64;
+        let mut cum = 0.0;
+        for (j, len) in lens.iter().enumerate() {
+            cum += *len as f64;
+            if j > 0 {
+                let last = j + 1 == lens.len();
+                let late = if last { r.chance(1, 4) } else { r.chance(2, 3) };
+                if late {
+                    t = t.max(t0 as f64 + 180.0 + cum / 2.0);
+                }
+            }
+            tp.push(json!([j + 1, t]));
+        }
+        tp.push(json!([lens.len(), t + 600.0]));
+    }
     let mut desc = json!({"kind":"run","oscale":1,"vscale":1,"escale":100,"links":links,
         "train":{"cars":cars},"consist":consist,"t0":t0,"ramp":ramp,"sched":sched,"look":look});
+    if sched == "timedwait" {
+        desc["tp"] = Value::Array(tp);
+    }
     // restrictions: a base limit per link + 0..3 nested / overlapping ones; re-drawn until the
     // profile is in the wanted class
     let draw = |r: &mut Rng, len: i64, simple: bool| -> Vec<Value> {
@@ -822,8 +932,7 @@ fn gen(seed: u64, n: usize, tier: &str) -> Vec<Value> {
     };
     (0..n)
         .map(|k| {
-            // Rng::new(x) and Rng::new(x+1) give the same stream shifted by one: re-seed from a mixed output
-            let mut r = Rng(Rng::new(seed.wrapping_mul(1_000_003).wrapping_add(k as u64)).next());
+            let mut r = Rng::new(seed.wrapping_mul(1_000_003).wrapping_add(k as u64));
             let mut d = gen_one(&mut r, if want.is_empty() { tier } else { "thorough" }, want);
             d["src"] = json!("gen");
             d["seed"] = json!(seed);
